@@ -74,6 +74,11 @@ def enumerate_cases(tier, seed):
           for f in FS:
             for ste in ((True, False) if cls == "quantized_bits" else (True,)):
               out.append(dict(fam="auto", cls=cls, alpha=alpha, bits=bits, f=f, ste=ste, rank=rank))
+              if cls == "quantized_bits":
+                # integer bits and a frozen (post-training) scale: neither changes the surrogate, the derivative stays
+                # the identity's (the normalisation by 2^integer inside the call must be undone on every path)
+                for integer, pts in ((2, False), (0, True), (2, True), (1, True)):
+                  out.append(dict(fam="auto", cls=cls, alpha=alpha, bits=bits, f=f, ste=ste, rank=rank, integer=integer, pts=pts))
   for c in out:
     c["_seed"] = seed
   return out
@@ -250,7 +255,8 @@ def run_case(case):
     for x in _tensor_alphabet(case["rank"], case["_seed"]):
       x64 = x.astype(np.float64)
       if case["cls"] == "quantized_bits":
-        q = Q.quantized_bits(bits=case["bits"], alpha=case["alpha"], qnoise_factor=case["f"], use_ste=case["ste"])
+        q = Q.quantized_bits(bits=case["bits"], integer=case.get("integer", 0), alpha=case["alpha"], qnoise_factor=case["f"],
+                             use_ste=case["ste"], post_training_scale=0.75 if case.get("pts") else None)
         g = np.ones_like(x64) if case["ste"] else np.full_like(x64, 1.0 - case["f"])
         keep = np.ones(x.shape, dtype=bool)
       else:
@@ -262,7 +268,7 @@ def run_case(case):
         inside = np.abs(x64) < top
         g = np.where(inside, 1.0, 1.0 - case["f"])
         keep = np.abs(np.abs(x64) - top) > 1e-4 * np.maximum(top, 1e-30)
-      runs.append((q, x, g, keep, 0.0, None, keep & (g != 0), case["alpha"]))
+      runs.append((q, x, g, keep, 0.0, None, keep & (g != 0), case["alpha"] + (":frozen" if case.get("pts") else "")))
 
   for q, x, g, keep, tol, fwd, unclipped, tag in runs:
     y, g1, g2, w, nograd = tape(q, x)
@@ -297,7 +303,7 @@ def run_case(case):
       g1f = g1.astype(np.float64).reshape(-1)
       # any value between the smallest and the largest region derivative is a sub-gradient at a kink
       lo_h, hi_h = min(gf.min(), 0.0), max(gf.max(), 0.0)
-      if tag in ("auto", "auto_po2") and name == "quantized_linear":
+      if tag.split(":")[0] in ("auto", "auto_po2") and name == "quantized_linear":
         lo_h, hi_h = 0.0, 1.0     # per-element scales put every element on its own clip edge: regions {1, 1-f}
       okk = (g1f >= lo_h - 1e-6 - tol) & (g1f <= hi_h + 1e-6 + tol)
       badk = kink.reshape(-1) & ~okk
